@@ -214,6 +214,10 @@ def sweep_specs() -> dict[str, dict[str, Any]]:
                     ("syn-gate-child", {"before": ["suspend"], "after": [], "parallel": False, "pre": False}),
                     ("syn-pre-after", {"before": ["ok"], "after": ["ok", "ok"], "parallel": False, "pre": True})):
         out[nm] = {"name": nm, "stages": [stage("a", [], [ok()]), stage("p", ["a"], [ok(), ok()], syn=syn), stage("z", ["p"], [ok()])]}
+    # a conditional stage that is skipped, with before/after stages declared with the workflow
+    out["syn-skipped-parent"] = {"name": "syn-skipped-parent", "stages": [
+        stage("a", [], [ok()]), stage("p", ["a"], [ok(), ok()], enabled=False, syn={"before": ["ok"], "after": ["ok"], "parallel": False, "pre": True}),
+        stage("b", ["a"], [ok(), ok(), ok()]), stage("z", ["p", "b"], [ok()])]}
     out["cof-pending"] = {"name": "cof-pending", "stages": [
         stage("a", [], [ok()]), stage("b", ["a"], [ok(), ok()], cof=True), stage("s", ["a"], [ok(), ok(), ok()], cof=True),
         stage("z", ["b", "s"], [ok()])]}
